@@ -108,6 +108,9 @@ def run(ctx, rep):
     no_inode_in_changed_test_rule(P, rep, 'R-C04-9')
     rehash_pairing_rule(P, rep, 'R-C04-8p')
     rehash_covers_pending_hashes_rule(P, rep, 'R-C04-8r')
+    # `scrub marks exactly the affected stripes as bad so that status lists them`: the mark must also reach the content file
+    from .C15 import dirty_bit_rule
+    dirty_bit_rule(P, rep, 'R-C04-4w', 'state_scrub_process', {'info_set'})
     from .C01 import used_parity_rule
     used_parity_rule(P, rep, 'R-C04-3p')
     from .carried import carried_flags_rule
